@@ -62,8 +62,8 @@ CLAIMED = {
    technique='symbolic execution of clang LLVM IR + z3 (QF_NRA), kernel and models replaced by environment stubs, 2-3 sections x 1-2 segments', design='4/C06'),
  'C07': dict(
    text='Bounding boxes: every point within the closed box is accepted (all finite doubles bit-precisely for the default tolerance, and over the reals for any tolerance >= 0), the spherical wrapper is the disjunction over the two longitude aliases, extend() moves both corners. '
-        'Slab/fault pre-filter (depth cut-off and buffered bounding box): under the planar-construction contract on the kernel result (a member lies at most d_along+|d_perp| below min depth and sideways of its trench foot) no point satisfying the membership definition is discarded, for every table within the bound. The min/max pre-test before depth surfaces is covered by C11.bound.',
-   note=TB + 'assumes the invariant parse_entries establishes (stored maxima dominate the tables, box = coordinate box + buffer); the parse-time buffer formulas, the spherical 1/cos(lat) buffer and curved trenches are outside.',
+        'Slab/fault pre-filter (depth cut-off and buffered bounding box): under the planar-construction contract on the kernel result (a member lies at most d_along+|d_perp| below min depth and sideways of its trench foot) no point satisfying the membership definition is discarded, for every table within the bound. The real parse_entries() of both features (driven through the Parameters stub) is proved to establish the invariant that lemma assumes: the stored maxima dominate both ends of every segment and every total length, and the Cartesian bounding box contains the coordinates extended by thickness + length. The min/max pre-test before depth surfaces is covered by C11.bound.',
+   note=TB + 'the spherical buffer (2*pi*buffer/radius, 1/cos(lat) scaling) is NOT covered - its adequacy is a geometric heuristic, not an invariant; section overrides in parse_entries and curved trenches are outside.',
    technique='symbolic execution of clang LLVM IR + z3 (FP bit-precise for the box, QF_NRA for the culling lemma with an environment contract)', design='4/C07'),
  'C10': dict(
    text='Interpolation half only: with kernel and per-segment models stubbed, every interpolated quantity of SubductingPlate/Fault::properties (thickness, top truncation, length handed to the models, temperature, composition, velocity) is proved equal to a + f(b-a) with a, b taken from sections cur and cur+1 only, hence convex for f in [0,1], equal to a section\'s own value at its coordinate, and independent of every other section.',
@@ -80,19 +80,19 @@ CLAIMED = {
    note=TB + 'NOT covered: closest point on the Bezier curve (Newton search) and the Cartesian<->spherical round trip (inverse trigonometric identities) - no installed solver decides them; coordinates bounded by 1e8; exact-real reading.',
    technique='symbolic execution of clang LLVM IR + z3 (QF_NRA with uninterpreted sqrt/sin/cos/acos under contract axioms), brute-force definition as oracle', design='4/C19'),
  'C12': dict(
-   text='Narrowed scope (byte/JSON-level parsing is not encodable, see level_note): the validation units that sit behind the JSON layer are driven symbolically - the real parse_entries() of the plume, the gaussian plume temperature, the uniform composition/grains/raw-velocity models, the oceanic half-space model and the spherical coordinate system, fed by a stub of the Parameters API delivering lists of every length combination within the bound and arbitrary values, '
+   text='Narrowed scope (byte/JSON-level parsing is not encodable, see level_note): the validation units that sit behind the JSON layer are driven symbolically - the real parse_entries() of the plume, the gaussian plume temperature, the uniform composition/raw-velocity models, the uniform grains models of the three area families (Euler-angle and rotation-matrix paths), the oceanic half-space model, the spherical coordinate system and the free-form string options of the water-content and mass-conserving models, fed by a stub of the Parameters API delivering lists of every length combination within the bound and arbitrary values, '
         'followed by one query with every memory access checked: the outcome must be an exception or a memory-safe, initialised evaluation, inconsistent list lengths must be rejected, and every accepted option string must leave a defined state.',
    note=TB + 'NOT covered: "all byte strings / all JSON documents", schema validation, formatting variants (rapidjson, schema validator and std::string/iostream code cannot be encoded with the installed tools; that layer is fuzzing territory). The stub respects the schema\'s own array-size limits. One known finding (spreading-velocity list length) is listed in known_findings.jsonl.',
    technique='symbolic execution of clang LLVM IR + z3 with a nondeterministic stub of the JSON layer; memory safety checked by the executor on every path', design='4/C12'),
  'C13': dict(
-   text='Narrowed to kernels and models (not whole worlds): (a) memory safety and termination for ARBITRARY doubles including NaN and infinities of the polygon test, the kd-tree construction and search, the area-feature property functions and the closed-form models, with every arithmetic result abstracted to an arbitrary value (sound over-approximation) and every access checked by the executor; '
+   text='Narrowed to kernels and models (not whole worlds): (a) memory safety and termination for ARBITRARY doubles including NaN and infinities of the polygon test, the kd-tree construction and search, the area-feature property functions, the closed-form models and - through a harness generated from the tree - EVERY model class under features/*_models (57 classes), with every arithmetic result abstracted to an arbitrary value (sound over-approximation) and every access checked by the executor; '
         '(b) domain safety over the reals: on every explored path of the listed models and of the ellipse formula no division has a divisor that can be zero and no sqrt/acos/log argument leaves its domain, for all parameters in the schema domain.',
    note=TB + 'NOT covered: finiteness under rounding/overflow; the slab kernel and the Bezier Newton search (150x10 iterations of double arithmetic: terminate by constant loop bounds but no solver verdict on their values); degenerate geographic locations that only matter through those kernels; whole-world queries.',
    technique='symbolic execution of clang LLVM IR + z3: abstract-arithmetic FP mode for safety/termination, QF_NRA for divisor/domain queries', design='4/C13'),
  'C14': dict(
    text='Schedules are discharged by a frame argument instead of being explored: (1) the real ThreadPool::parallel_for of gwb-grid (main.cc compiled unchanged, std::thread mapped to a slice recorder) is executed symbolically for thread counts 1..16 (1..40 thorough) against a symbolic node range: the slices handed to the threads are non-empty, pairwise disjoint, contiguous and cover exactly the range, every started thread is joined; '
-        '(2) from the Clang AST of main, both node lambdas are shown (z3) to write only slots i, 3i..3i+2 of their own node and lambda-local variables, so two nodes never write the same element; (3) the query path (World::properties; the feature/model queries checked under C02/C05) writes only fresh memory and the caller\'s output vector. Together: no interleaving has a race and every node gets the single-thread value.',
-   note=TB + 'no schedule is ever executed; purity is established for World::properties with stub features and, inside the C02/C05 harnesses, for the area features and the models of the C05 table - a model outside that table (e.g. slab water-content, mass-conserving) is NOT covered; the VTU writer is outside; random models are excluded by the statement.',
+        '(2) from the Clang AST of main, both node lambdas are shown (z3) to write only slots i, 3i..3i+2 of their own node and lambda-local variables, so two nodes never write the same element; (3) the query path writes only fresh memory and the caller\'s output vector: World::properties with stub features, the area-feature property functions (C02 harness), and EVERY model class found under features/*_models (harness generated from the tree on each run: real constructor, real parse_entries through the Parameters stub, one query with arbitrary arguments, write-set recorded). Together: no interleaving has a race and every node gets the single-thread value.',
+   note=TB + 'no schedule is ever executed; purity of the slab/fault property functions themselves is not recorded (their models are); the mass-conserving model explores thousands of paths and may end UNDECIDED within the quick cap (its spline branch is excluded); the VTU writer is outside; random models are excluded by the statement.',
    technique='symbolic execution of clang LLVM IR + z3 (bit-vector slice arithmetic), Clang-AST index arithmetic + z3 (QF_LIA), write-set recording', design='4/C14'),
  'C17': dict(
    text='The index arithmetic of gwb-dat\'s main() is extracted from the Clang AST (header token emission, row value emission, request list construction, loops) and compared by z3 for ALL composition counts, grain-composition counts and grain counts with the slot the library assigns to the property each header token names (layout widths proved for the real World::properties under C01): '
@@ -105,7 +105,7 @@ CLAIMED = {
    note=TB + 'NOT covered: grid generation for box/chunk/annulus/sphere (about 900 lines of trigonometry and file I/O inside main), cell counts, Depth values, VTU serialisation (vtu11), dim 3 filtering (8 nodes per cell).',
    technique='symbolic execution of clang LLVM IR + z3 for the filter; Clang-AST index arithmetic + z3 for the node values', design='4/C18'),
  'C15': dict(
-   text='With randomness modelled as an arbitrary value of its contract (uniform_real_distribution<double>::operator() specialised to a fresh u in [0,1) scaled to [a,b)), the real random-uniform-distribution grains model and the random composition model (continental family, built through their real parse_entries) are executed symbolically: '
+   text='With randomness modelled as an arbitrary value of its contract (uniform_real_distribution<double>::operator() specialised to a fresh u in [0,1) scaled to [a,b)), the real random-uniform-distribution grains models of the continental, oceanic and mantle-layer families (1-2 listed compositions with arbitrary labels) and the continental random composition model, built through their real parse_entries, are executed symbolically: '
         'every generated orientation satisfies R R^T = I and det R = +1 (polynomial identities over the reals with sin/cos/sqrt uninterpreted under sin^2+cos^2=1 and sqrt contracts, Ackermannised for z3\'s nlsat), normalised sizes sum to one, fixed sizes are returned as given, random compositions lie in [min,max), '
         'the number and order of draws depends only on model state and request, and the only pre-existing state the model touches is the engine - hence with a deterministic engine the answer is a function of file, seed and query history.',
    note=TB + 'NOT covered: the Mersenne Twister itself (seeding, "different seeds give different draws": inverting MT19937 is not a bounded query), seeding in World (JSON), the deflected variant and the other feature families (same code pattern, not instantiated), all-zero size draws (probability zero).',
